@@ -625,7 +625,7 @@ func scenarioByzantine(c *harness.Ctx) {
 					frameOut = refFrame(other, 0, resp)
 				case 1:
 					pWrongType.Hit()
-					frameOut = refFrame(rid, []int32{2, 3, 1, -1}[tp.Choose(4)], resp)
+					frameOut = refFrame(rid, []int32{2, 3, 1, -1, 256, 0x10000, -256, -0x80000000}[tp.Choose(8)], resp)
 				default:
 					frameOut = refFrame(rid, 0, resp)
 				}
@@ -665,7 +665,18 @@ func scenarioByzantine(c *harness.Ctx) {
 		return
 	}
 	if respErr == nil {
+		if variant == 1 {
+			// The statement pairs responses by request id only ("accepted only under
+			// the request id in use"); that go-mc also insists on type 0 is
+			// recorded, not asserted.
+			pWrongTypeAccepted.Hit()
+			return
+		}
 		c.Fail("rcon.response", "client", c.Config["variant"].(string), "Resp accepted a response (%d bytes) that was sent %v", len(gotResp), c.Config["variant"])
+		return
+	}
+	if variant == 1 {
+		pWrongTypeRefused.Hit()
 	}
 }
 
@@ -804,3 +815,6 @@ func TestWorker(t *testing.T) { harness.Main(t, prop) }
 var pPwWhitespace = simrt.NewProbe("login.password.with.white.space.or.line.ending")
 
 var pForeignMinusOne = simrt.NewProbe("foreign.client.request.id.-1")
+
+var pWrongTypeRefused = simrt.NewProbe("byzantine.response.type!=0.refused.by.Resp(recorded,not.asserted)")
+var pWrongTypeAccepted = simrt.NewProbe("byzantine.response.type!=0.accepted.by.Resp(recorded,not.asserted)")
